@@ -148,7 +148,11 @@ TRunEnd == /\ (IsEvent("run.end") \/ IsEvent("run.panic")) /\ ~Restartable
            /\ pc' = (IF E.ev = "run.panic" THEN "panicked" ELSE "ended")
            /\ Keep(<<ix, nsub, acc, prev, tenv, hist, gwseen>>)
 
-TNext == TGen \/ TRunStart \/ TRunConfig \/ TDayTop \/ TDayWeather \/ TDayGw \/ TDayInputs \/ TDayEvatra \/ TDaySteps
+\* the harness scanned the result files of the run for NaN / Inf tokens (C06)
+TFilesScan == /\ IsEvent("files.scan") /\ pc \in {"ended", "panicked"}
+              /\ Keep(<<pc, ix, nsub, acc, prev, tenv, hist, gwseen>>)
+
+TNext == TFilesScan \/ TGen \/ TRunStart \/ TRunConfig \/ TDayTop \/ TDayWeather \/ TDayGw \/ TDayInputs \/ TDayEvatra \/ TDaySteps
          \/ TSubPre \/ TSubWater \/ TSubCrop \/ TNitroMineral \/ TNitroMove \/ TSubNitro \/ TDayDenit \/ TDayEnd \/ TRunEnd
 TSpec == TInit /\ [][TNext]_vars
 
